@@ -423,6 +423,131 @@ def ods_walk_model(ctx):
         ctx.ev.nontrivial(("odswalk", t["raw"]))
 
 
+# ----------------------------------------------------------------------------- XLS sheet reader: model of the dictionary rows
+XLS_DEV = {"KF-C13-06": "Xls!HeaderOnlySheetEmpty", "KF-C13-07": "Xls!HeaderKeyCollision", "KF-C13-08": "Xls!ErrorCellNone"}
+
+
+def _xls_walk_job(grids):
+    import io
+    from ..docrun import render
+    from ..repo import activate
+    activate()
+    import warnings
+    warnings.simplefilter("ignore")
+    import xlrd
+    import sharepoint2text
+    from ..docmodel import TOKEN_RE
+    conv = {"none": lambda c: None, "tok": lambda c: ["s", c[1]], "num": lambda c: ["n", c[1] / 2], "err": lambda c: ["e", "#DIV/0!"]}
+    book = {"kind": "book", "sheets": [{"name": f"S{k}", "rows": [[conv[c[0]](c) for c in row] for row in g]}
+                                       for k, g in enumerate(grids, start=1)]}
+    data = render(book, "xls")
+
+    def seen(cell):          # what xlrd (trusted) reports
+        if cell.ctype in (0, 6):
+            return ["none", 0]
+        if cell.ctype == 1:
+            m = TOKEN_RE.fullmatch(cell.value)
+            return ["tok", int(m.group(1) or m.group(2) or m.group(3))] if m else ["other", 0]
+        if cell.ctype == 2:
+            return ["num", int(cell.value * 2)]
+        if cell.ctype == 4:
+            return ["bool", int(cell.value)]
+        if cell.ctype == 5:
+            return ["err", 0]
+        return ["other", 0]
+
+    def shown(v):            # what the reader returns
+        if v is None:
+            return ["none", 0]
+        if isinstance(v, bool):
+            return ["bool", int(v)]
+        if isinstance(v, (int, float)):
+            return ["num", int(v * 2)]
+        if v == "":
+            return ["estr", 0]
+        if v == "#ERROR":
+            return ["errstr", 0]
+        m = TOKEN_RE.fullmatch(v)
+        if m:
+            return ["tok", int(m.group(1) or m.group(2) or m.group(3))]
+        if v in ("True", "False"):
+            return ["boolstr", int(v == "True")]
+        try:
+            return ["numstr", int(float(v) * 2)]
+        except ValueError:
+            return ["other", 0]
+    try:
+        wb = xlrd.open_workbook(file_contents=data, logfile=io.StringIO())
+        r = next(sharepoint2text.read_xls(io.BytesIO(data), "w.xls"))
+    except Exception as e:
+        return {"exc": f"{type(e).__name__}: {e}"[:200]}
+    if wb.nsheets != len(grids) or len(r.sheets) != len(grids):
+        return {"exc": f"{len(grids)} sheets written, xlrd {wb.nsheets}, reader {len(r.sheets)}"}
+    out = []
+    for k in range(len(grids)):
+        sh = wb.sheet_by_index(k)
+        out.append({"grid": [[seen(sh.cell(i, j)) for j in range(sh.ncols)] for i in range(sh.nrows)],
+                    "table": [[shown(c) for c in row] for row in r.sheets[k].get_table()]})
+    return {"sheets": out}
+
+
+def xls_walk_model(ctx):
+    """XlsWalk.tla: theorems on all grids up to 3 x 2, one sensitivity run per as-built step, binding of read_xls /
+    XlsSheet.get_table to the model on every grid of the universe."""
+    from concurrent.futures import ProcessPoolExecutor
+    from ..tlaval import iter_dump, to_tla
+    from ..docrun import from_tla
+    from ..tlc import MachineryError, run_tlc_many
+    consts = " MaxRows = 3\n MaxCols = 2\n"
+    cfg = f"SPECIFICATION Spec\nCONSTANTS WalkDev = {{}}\n{consts}INVARIANT Inv_Shape\nINVARIANT Inv_InPlace\nPROPERTY Prop_Terminates\n"
+    devs = sorted(XLS_DEV.values())
+    dump = ctx.scratch / "xlsgen.dump"
+    res = run_tlc_many([("XlsWalk", cfg, dict(scratch=ctx.scratch, expect_fail=True, workers=6))]
+                       + [("XlsWalk", cfg.replace("WalkDev = {}", f'WalkDev = {{"{dv}"}}'), dict(scratch=ctx.scratch, expect_fail=True, workers=3))
+                          for dv in devs]
+                       + [("XlsWalk", f"SPECIFICATION GenSpec\nCONSTANTS WalkDev = {{}}\n{consts}", dict(scratch=ctx.scratch, dump=dump, workers=3))],
+                       max_parallel=5)
+    r, rg = res[0], res[-1]
+    ctx.ev.tlc("XlsWalk 3x2: the modelled XLS reader returns an r x c table with every cell in place", r)
+    if r.violated:
+        ctx.v.violation(what=f"XlsWalk.tla: the strict model violates {r.violated}", observed=r.output[-1500:])
+    for dv, rs in zip(devs, res[1:-1]):
+        ctx.ev.tlc(f"XlsWalk sensitivity: as-built step {dv} must violate a theorem", rs, note="expected violation")
+        if not rs.violated:
+            raise MachineryError(f"XlsWalk sensitivity run for {dv} did not fail")
+    ctx.ev.tlc("XlsWalk GenSpec: grids", rg)
+    grids = sorted((from_tla(st["grid"]) for st in iter_dump(dump)), key=lambda g: json.dumps(g))
+    if len(grids) != rg.distinct:
+        raise MachineryError(f"XlsWalk dump {len(grids)} != {rg.distinct}")
+    if not ctx.thorough and len(grids) > 4000:
+        rng = random.Random(ctx.seed)
+        small = [g for g in grids if len(g) * len(g[0]) <= 4]
+        rest = [g for g in grids if len(g) * len(g[0]) > 4]
+        rng.shuffle(rest)
+        grids = small + rest[: 4000 - len(small)]
+    books = [grids[k:k + 40] for k in range(0, len(grids), 40)]
+    with ProcessPoolExecutor(16) as ex:
+        obs = list(ex.map(_xls_walk_job, books, chunksize=2))
+    traces = []
+    for b, o in zip(books, obs):
+        if "exc" in o:
+            ctx.v.violation(what=f"read_xls failed on a generated workbook of {len(b)} small sheets: {o['exc']}", case={"grids": b[:3]})
+            continue
+        for g, sh in zip(b, o["sheets"]):
+            traces.append({"id": f"xlssheet:{len(traces)}", "hdr": {"fmt": "xls", "doc": {"grid": g}}, "raw": json.dumps(sh["table"])[:300],
+                           "ev": [{"a": "XlsSheet", "grid": sh["grid"], "table": sh["table"]}]})
+
+    def cfgfn(dev):
+        return f"SPECIFICATION TraceSpec\nCONSTANTS WalkDev = {to_tla(set(dev))}\nCONSTRAINT TraceAccept\n"
+    validate_with_findings(ctx, "XlsWalkTrace", traces, XLS_DEV,
+                           lambda t, e: "read_xls: the sheet table differs from the model XlsWalk.tla: grid "
+                                        f"{json.dumps(e['grid'])[:300]} -> table {json.dumps(e['table'])[:300]}",
+                           lambda t: "xls_extractor.py:_read_content / data_types.py:XlsSheet.get_table", cfg=cfgfn)
+    ctx.ev.replayed(len(traces))
+    for t in traces[:: max(1, len(traces) // 300)]:
+        ctx.ev.nontrivial(("xlswalk", t["raw"]))
+
+
 def run(ctx):
     ev = ctx.ev
     rng = random.Random(ctx.seed)
@@ -471,6 +596,7 @@ def run(ctx):
     typed_values(ctx)
     sheet_walk_model(ctx)
     ods_walk_model(ctx)
+    xls_walk_model(ctx)
     ev.set(rule="same TLC-enumerated document suite as C02: tables 1..2 x 1..2 with plain / two-paragraph / empty / "
                 "nested-table cells, in lists, content controls and text boxes, on slides; sheets up to 3x3 with empty "
                 "cells; non-trivial = at least one table observed",
